@@ -38,6 +38,9 @@ def gen_case(r, hashseed):
     if isinstance(d, int) and d <= 20:
       program['recursive'][name] = {'depth': d, 'iterative': True}
       iterative_forced = True
+  has_functor = False
+  if r.random() < 0.2:
+    has_functor = gen.add_functor(r, program, main)
   idb = gen.idb_names(program)
   if r.random() < 0.2:
     # annotations on members of the recursive component or on its dependants: they are rewritten
@@ -157,13 +160,16 @@ def run_program(program, requested, path, dbpath, faults):
 
 
 def component_styles(program, comp):
+  program = ref.expand_functors(program)
+  copy_of = program.get('copy_of') or {}
   comps, graph = ref.sccs(program['preds'])
   out = {}
   for c in comps:
     if len(c) > 1 or c[0] in graph[c[0]]:
       style = None
       for n in c:
-        s = comp.unfolding_style(n)
+        # a functor copy is a copy of the unfolded predicates: same style as its original
+        s = comp.unfolding_style(copy_of.get(n, n))
         if s == 'iterative':
           style = s
         elif s == 'flat' and style != 'iterative':
@@ -177,6 +183,7 @@ def component_styles(program, comp):
 def expectation(program, R, comp):
   """name -> ('exact', bag) or ('between', lower_set, upper_set or None) or ('skip', why)."""
   styles = component_styles(program, comp)
+  program = ref.expand_functors(program)
   by = {p['name']: p for p in program['preds']}
   inexact = set()    # predicates whose value is only bounded
   unbounded_ok = {}
@@ -216,7 +223,7 @@ def expectation(program, R, comp):
 
 def check_results(program, R, comp, requested, res):
   vs = []
-  by = {p['name']: p for p in program['preds']}
+  by = {p['name']: p for p in ref.expand_functors(program)['preds']}
   exp, styles = expectation(program, R, comp)
   checked = Counter()
   for n in requested:
@@ -273,6 +280,7 @@ def script_rows(world):
 
 def run_case_full(case, scratch):
   """Returns (violations, info dict)."""
+  lrun.fresh_process()      # one case = the life of one (simulated) process
   program = case['program']
   info = {'fired': [], 'statements': 0, 'styles': {}, 'discard': None, 'checked': Counter(),
           'stale_present': False, 'offbyone': False}
@@ -387,11 +395,15 @@ def shrink(case):
     for i in range(len(case['requested'])):
       yield dict(case, requested=[case['requested'][i]])
   prog = case['program']
-  idb = gen.idb_names(prog)
+  fcs = prog.get('functors') or []
+  if fcs and not any(f['name'] in case['requested'] for f in fcs):
+    yield dict(case, program=dict(prog, functors=[]))
+  idb = [p['name'] for p in prog['preds'] if p['kind'] != 'edb']
   # drop a downstream predicate nobody needs
   dep = gen.dependants(prog)
+  held = {f['of'] for f in fcs}
   for n in idb:
-    used = any(n in dep[m] for m in idb if m != n)
+    used = any(n in dep[m] for m in idb if m != n) or n in held
     if not used and n not in case['requested']:
       p2 = dict(prog, preds=[p for p in prog['preds'] if p['name'] != n])
       yield dict(case, program=p2)
